@@ -804,6 +804,29 @@ class int_type(builtins.int, metaclass=_IntMeta):
         return sint(v, *a)
 
 
+def sfloat(v=0.0):
+    """stand-in for builtins.float: exact on symbolic values (reals model the float64 computation, see DESIGN 1.3)"""
+    if isinstance(v, SReal):
+        return v
+    if isinstance(v, SInt):
+        return SReal(z3.ToReal(v.z))
+    if isinstance(v, SBool):
+        return SReal(z3.If(v.z, z3.RealVal(1), z3.RealVal(0)))
+    return builtins.float(v)
+
+
+class _FloatMeta(type):
+    def __instancecheck__(cls, obj):
+        return isinstance(obj, (builtins.float, SReal))
+
+
+class float_type(builtins.float, metaclass=_FloatMeta):
+    """stand-in for the builtin `float` that still works in isinstance(x, float)"""
+
+    def __new__(cls, v=0.0):
+        return sfloat(v)
+
+
 def sbool(v):
     if isinstance(v, SBool):
         return v
